@@ -12,6 +12,7 @@ CONSTANTS
   Filts = {"none", "client", "server"}
   Ops = {"pub", "rem", "exp", "clear", "refresh"}
   MaxJumps = 0
+  EpochCheck = TRUE
   Pres = {3}
   N0s = {0}
   Contig = FALSE
